@@ -181,6 +181,26 @@ def curved_case(rng, material):
                 tubes=[dict(stress=stress, strain=strain, temp=temp, times=times)])
 
 
+def bracket_case(rng, material, mode=None):
+    """three represented days whose peak metal temperatures differ by 100-300 K (so they fall in different
+    temperature brackets of a material with several fatigue curves) and whose strain amplitudes differ too:
+    each cycle's fatigue damage must be looked up at THAT cycle's maximum temperature"""
+    c = gen_case(rng, regime="crossing", material=material, mode=mode or rng.choice(["lump", "last"]), days=3, ntubes=1,
+                 period=24.0)
+    t = c["tubes"][0]
+    times = t["times"]
+    tmax = common_tmax()
+    levels = rng.sample([tmax - 20.0, tmax - 120.0, tmax - 220.0, tmax - 320.0], 3)
+    for d in range(3):
+        sel = (times > d * 24.0) & (times <= (d + 1) * 24.0)
+        if d == 0:
+            sel = sel | (times == 0.0)
+        npr = np.random.default_rng(rng.getrandbits(32))
+        t["temp"][sel] = levels[d] + npr.uniform(-8.0, 0.0, t["temp"][sel].shape)
+        t["strain"][:, sel] *= rng.choice([0.5, 1.0, 2.0])
+    return c
+
+
 def case_to_json(case):
     return dict(material=case["material"], mode=case["mode"], period=case["period"], days=case["days"],
                 regime=case.get("regime"),
